@@ -122,6 +122,10 @@ CONFIGS = [
      "pool": "deep"},
     {"cls": "NS", "kw": {"gamma": 0.9, "max_iter": 5, "tol": 1e-6, "verbose": True}, "pool": "any"},
     {"cls": "QGMRES", "kw": {"tol": 1e-6, "verbose": True}, "pool": "sys"},
+    # sketch / block sizes ABOVE the row count of the smallest pool problems and below that of the others: the clamped /
+    # fallback paths taken for a small problem must leave nothing behind for the next one
+    {"cls": "HYBRID", "kw": {"r": 4, "p": 2, "T": 2, "max_iter": 5, "tol": 1e-8}, "pool": "tall"},
+    {"cls": "RSP", "kw": {"block_size": 4, "max_iter": 8, "tol": 1e-6, "test_sketch_size": 3}, "pool": "tall"},
 ]
 
 POOLS = {
@@ -427,6 +431,12 @@ def _probes():
     add("quaternion_modulus", lu.quaternion_modulus, lambda c: [Q(c["A"])])
     add("quaternion_triu", lu.quaternion_triu, lambda c: [Q(c["A"])])
     add("quaternion_tril", lu.quaternion_tril, lambda c: [Q(c["A"])])
+    # strictly tall and strictly wide operands with a diagonal offset (rows / columns past the square part)
+    _tallx = lambda c: np.concatenate([c["Tall"], c["Tall"][:1] * 0.5 + 0.25], axis=0)
+    add("quaternion_triu(tall, k=1)", lambda A: lu.quaternion_triu(A, 1), lambda c: [Q(_tallx(c))])
+    add("quaternion_tril(tall, k=-1)", lambda A: lu.quaternion_tril(A, -1), lambda c: [Q(_tallx(c))])
+    add("quaternion_triu(wide)", lu.quaternion_triu, lambda c: [Q(np.ascontiguousarray(np.swapaxes(_tallx(c), 0, 1)))])
+    add("quaternion_tril(wide)", lu.quaternion_tril, lambda c: [Q(np.ascontiguousarray(np.swapaxes(_tallx(c), 0, 1)))])
     add("verify_lu_decomposition", lambda A: lu.verify_lu_decomposition(A, *lu.quaternion_lu(A)), lambda c: [Q(c["Sys"])])
     add("quaternion_eigendecomposition", eg.quaternion_eigendecomposition, lambda c: [Q(c["H"])])
     add("quaternion_eigenvalues", eg.quaternion_eigenvalues, lambda c: [Q(c["H"])])
@@ -524,7 +534,7 @@ def probes():
     return _PROBE_CACHE["p"]
 
 
-N_PROBES = 127   # upper bound used by the generator; indices are taken modulo the real table length
+N_PROBES = 131   # upper bound used by the generator; indices are taken modulo the real table length
 
 
 @st.composite
@@ -713,6 +723,19 @@ def _hash_args(args):
     return hs
 
 
+def _poison_heap(args, byte):
+    """Allocate, fill with one byte pattern and free a few blocks of the byte sizes of the array arguments (and of their
+    transposes' row counts): numpy's small-block cache / malloc hand such blocks to the next np.empty of that size."""
+    for a in args:
+        if isinstance(a, np.ndarray) and a.size:
+            blocks = []
+            for _ in range(4):
+                t = np.empty(a.shape, dtype=a.dtype)
+                t.view(np.uint8).fill(byte)
+                blocks.append(t)
+            del blocks
+
+
 def check_mutation(case):
     P = probes()
     name, fn, build = P[case["probe"] % len(P)]
@@ -723,7 +746,8 @@ def check_mutation(case):
     np.random.seed(case["seed"])
     rs0 = np.random.get_state()
     err0 = np.geterr()
-    try:
+    _poison_heap(args, 0x7F)      # freed blocks of the arguments' sizes hold one bit pattern now, another before the repetition:
+    try:                          # a result built on uninitialised memory (np.empty) then differs between the two calls
         with contextlib.redirect_stdout(io.StringIO()):
             r1 = fn(*args)
     except Exception as e:  # noqa: BLE001  (in-domain rejection is C20's business, not C14's)
@@ -745,6 +769,7 @@ def check_mutation(case):
              "an array argument was modified in place")
     args2 = build(case)
     np.random.seed(case["seed"])
+    _poison_heap(args2, 0x55)
     with contextlib.redirect_stdout(io.StringIO()):
         ok, r2 = out.call(f"{name}:second call", fn, *args2)
     if ok:
